@@ -118,6 +118,24 @@ fn parse_markdown(out: &str) -> Option<Vec<Value>> {
     Some(rows)
 }
 
+/// `digraph { 0 [ label = "a" ] ... 0 -> 1 [ ] }`: the edges as pairs of node labels.
+fn parse_dot(out: &str) -> Option<Vec<Vec<String>>> {
+    let body = out.trim().strip_prefix("digraph {")?.strip_suffix('}')?;
+    let mut labels = std::collections::HashMap::new();
+    let mut edges = Vec::new();
+    for line in body.lines().map(str::trim).filter(|l| !l.is_empty()) {
+        if let Some((a, rest)) = line.split_once(" -> ") {
+            let b = rest.split_whitespace().next()?;
+            edges.push((a.trim().parse::<usize>().ok()?, b.parse::<usize>().ok()?));
+        } else {
+            let (idx, rest) = line.split_once(" [")?;
+            let label = rest.split('"').nth(1)?;
+            labels.insert(idx.trim().parse::<usize>().ok()?, label.to_string());
+        }
+    }
+    edges.iter().map(|(a, b)| Some(vec![labels.get(a)?.clone(), labels.get(b)?.clone()])).collect()
+}
+
 pub fn run(seed: u64, n: usize, out: &str, stats_path: Option<&str>) -> i32 {
     std::panic::set_hook(Box::new(|_| {}));
     let mut f = std::io::BufWriter::new(std::fs::File::create(out).expect("create out"));
@@ -177,6 +195,7 @@ pub fn run(seed: u64, n: usize, out: &str, stats_path: Option<&str>) -> i32 {
             ("csv", Box::new(|| rep::csv::report(&info, rounds, &resolver))),
             ("markdown", Box::new(|| rep::table::report_md(&info, rounds, &resolver))),
             ("flows", Box::new(|| rep::flows::report(&info, rounds))),
+            ("dot", Box::new(|| rep::dot::report(&info, rounds))),
         ];
         for (mode, gen) in modes {
             let (text, panicked, err) = capture(&mut scratch, gen);
@@ -193,6 +212,15 @@ pub fn run(seed: u64, n: usize, out: &str, stats_path: Option<&str>) -> i32 {
                     })
                     .collect();
                 ev["lines"] = json!(lines);
+            } else if mode == "dot" {
+                match parse_dot(&text) {
+                    Some(edges) => ev["edges"] = json!(edges),
+                    None => {
+                        ev["parsed"] = json!(false);
+                        ev["edges"] = json!([]);
+                        ev["text"] = json!(text.chars().take(600).collect::<String>());
+                    }
+                }
             } else {
                 let rows = match mode {
                     "json" => parse_json(&text),
@@ -210,7 +238,7 @@ pub fn run(seed: u64, n: usize, out: &str, stats_path: Option<&str>) -> i32 {
             writeln!(f, "{ev}").unwrap();
         }
         stats.push(json!({"id":format!("report-{seed}-{sc}"),"cell":format!("{strat:?}"),"shape":format!("r{rounds}-f{first_ttl}-h{}", hops.len()),
-            "delivered":{"genuine":hops.len()},"events":4}));
+            "delivered":{"genuine":hops.len()},"events":5}));
     }
     f.flush().unwrap();
     let _ = std::fs::remove_file(format!("{out}.stdout"));
